@@ -83,11 +83,13 @@ def main():
                              "ylimits": [hx(v) for v in captured["ylimits"]], "xunits": captured["xunits"],
                              "display": sorted(captured["display"]), "xscale": captured["xscale"], "yscale": captured["yscale"],
                              "lines": lines, "axes": axinfo}
-                pref = []
+                pref, ppoints = [], []
                 for t in captured["time_points"]:
                     d = readout(inv.decay(t, c["tunit"]), c["kind"], uc)
                     pref.append([hx(d[n]) for n in captured["nuclides"]])
+                    ppoints.append([[k, hx(v)] for k, v in d.items()])
                 r["plot"]["ref"] = pref
+                r["plot"]["points"] = ppoints     # full read-outs per time point (input of the Coq model `plot_curves`)
                 r["plot"]["all_nuclides"] = list(inv.decay(0).nuclides)
                 r["plot"]["dataset_order"] = sorted(inv.decay(0).nuclides, key=lambda n: inv.decay_data.nuclide_dict[n])
         except Exception as e:
